@@ -14,6 +14,7 @@ import (
 	"syscall"
 	"time"
 
+	"github.com/Vedant9500/WTF/internal/database"
 	"github.com/Vedant9500/WTF/internal/embedding"
 )
 
@@ -224,6 +225,18 @@ func runC19Child(seed int64, n int, replay string, e *emitter) {
 		if idx != nil {
 			out.NVec = len(idx.WordVectors)
 		}
+	case "dbload":
+		// the database's own loading step: asset files in the working directory, fewer / as many / more command embeddings than commands
+		os.Chdir(file)
+		var n int
+		fmt.Sscan(os.Getenv("C19_N"), &n)
+		var cmds []database.Command
+		for i := 0; i < n; i++ {
+			cmds = append(cmds, database.Command{Command: fmt.Sprintf("ls -l%d", i), Description: "list files in a directory"})
+		}
+		db := database.VerifFresh(cmds)
+		out.Err = db.LoadEmbeddings() != nil
+		out.NVec = len(db.SearchUniversal("list files", database.SearchOptions{Limit: 5, AllPlatforms: true, UseNLP: true}))
 	case "ce":
 		idx := &embedding.Index{Dimension: 100, WordVectors: map[string][]float32{}}
 		err := idx.LoadCommandEmbeddings(file)
@@ -299,6 +312,57 @@ func c19Loader(c *c19Case, kind string, file []byte, dir string, base int64) {
 	if json.Unmarshal(data, &out) == nil {
 		c.Err, c.NVec, c.Vec0 = out.Err, out.NVec, out.Vec0
 	}
+}
+
+// c19DBLoad: valid asset files (three word vectors; nEmb command embeddings of dimension 100) beside a database of nCmd commands
+func c19DBLoad(r *rand.Rand, c *c19Case, dir string, base int64) {
+	d := filepath.Join(dir, fmt.Sprintf("assets%d", c.ID))
+	os.MkdirAll(d, 0o755)
+	defer os.RemoveAll(d)
+	nCmd, nEmb := 1+r.Intn(4), r.Intn(6)
+	var wv []byte
+	wv = binary.LittleEndian.AppendUint32(wv, 3)
+	for _, w := range []string{"list", "files", "directory"} {
+		wv = binary.LittleEndian.AppendUint16(wv, uint16(len(w)))
+		wv = append(wv, w...)
+		for i := 0; i < 100; i++ {
+			wv = binary.LittleEndian.AppendUint32(wv, math.Float32bits(float32(r.NormFloat64())))
+		}
+	}
+	var ce []byte
+	ce = binary.LittleEndian.AppendUint32(ce, uint32(nEmb))
+	ce = binary.LittleEndian.AppendUint32(ce, 100)
+	for i := 0; i < nEmb*100; i++ {
+		ce = binary.LittleEndian.AppendUint32(ce, math.Float32bits(float32(r.NormFloat64())))
+	}
+	os.WriteFile(filepath.Join(d, "glove.bin"), wv, 0o644)
+	os.WriteFile(filepath.Join(d, "cmd_embeddings.bin"), ce, 0o644)
+	c.File = ints(fmt.Sprintf("commands=%d embeddings=%d", nCmd, nEmb))
+	outF := filepath.Join(dir, fmt.Sprintf("o%d.json", c.ID))
+	defer os.Remove(outF)
+	self, _ := os.Executable()
+	ctx, cancel := context.WithTimeout(context.Background(), 60*time.Second)
+	defer cancel()
+	cmd := exec.CommandContext(ctx, "prlimit", "--as=3000000000", "--", self, "c19child", "-out", outF)
+	cmd.Env = append(os.Environ(), "C19_KIND=dbload", "C19_FILE="+d, fmt.Sprintf("C19_N=%d", nCmd), "GOGC=100")
+	b, err := cmd.CombinedOutput()
+	if err != nil {
+		c.Crashed = true
+		if ee, ok := err.(*exec.ExitError); ok {
+			c.Exit = ee.ExitCode()
+		}
+		s := string(b)
+		if len(s) > 300 {
+			s = s[:300]
+		}
+		c.Stderr = s
+	}
+	if cmd.ProcessState != nil {
+		if ru, ok := cmd.ProcessState.SysUsage().(*syscall.Rusage); ok {
+			c.MaxRSS = ru.Maxrss
+		}
+	}
+	c.BaseRSS = base
 }
 
 func c19Cos(r *rand.Rand, c *c19Case) {
@@ -436,6 +500,8 @@ func runC19(seed int64, n int, replay string, e *emitter) {
 			}
 			c.File = ints(string(f))
 			c19Loader(&c, kind, f, dir, base)
+		case "dbload":
+			c19DBLoad(r, &c, dir, base)
 		case "cos":
 			c19Cos(r, &c)
 		default:
@@ -477,6 +543,11 @@ func runC19(seed int64, n int, replay string, e *emitter) {
 	for i := 0; i < n/8; i++ {
 		r := rand.New(rand.NewSource(seed*1000003 + int64(500000+i)))
 		e.emit(one(r, 500000+i, []string{"wvpipe", "cepipe"}[i%2], nil))
+	}
+	// the database's own loading of asset files
+	for i := 0; i < 6+n/20; i++ {
+		r := rand.New(rand.NewSource(seed*1000003 + int64(600000+i)))
+		e.emit(one(r, 600000+i, "dbload", nil))
 	}
 }
 
